@@ -1090,17 +1090,31 @@ def pipeline_stream(ctx: Ctx) -> None:
 
 # --------------------------------------------------------------------------- unstring stream (string annotations)
 
+_ALIASES: Dict[str, str] = {}      # local name -> typing name, set by the streams whose modules import aliases
+
+
+def _is_typing(v: ast.AST, name: str) -> bool:
+    """spelled <name>, <anything>.<name>, or a local alias the module imported from typing"""
+    if isinstance(v, ast.Name):
+        return v.id == name or _ALIASES.get(v.id) == name
+    return isinstance(v, ast.Attribute) and v.attr == name
+
+
 def _is_literal(v: ast.AST) -> bool:
-    return (isinstance(v, ast.Name) and v.id == "Literal") or (isinstance(v, ast.Attribute) and v.attr == "Literal")
+    return _is_typing(v, "Literal")
 
 
 def unstring_expected(node: ast.expr) -> ast.expr:
     """The documented unquoting of string annotations, written independently of astutils: every str
-    constant is replaced by the expression it spells (recursively), except inside Literal[...]."""
+    constant is replaced by the expression it spells (recursively), except the arguments of
+    Literal[...] and the metadata of Annotated[T, ...] (values, they stay strings)."""
     class T(ast.NodeTransformer):
         def visit_Subscript(self, n: ast.Subscript) -> ast.AST:
             n.value = self.visit(n.value)
             if _is_literal(n.value):
+                return n
+            if _is_typing(n.value, "Annotated") and isinstance(n.slice, ast.Tuple) and n.slice.elts:
+                n.slice.elts[0] = self.visit(n.slice.elts[0])
                 return n
             n.slice = self.visit(n.slice)
             return n
@@ -1132,6 +1146,9 @@ def _splice(n: ast.AST, relinked: bool) -> ast.AST:
         # the re-built (parent-less) Subscript re-links everything below it, value and slice
         n.value = _splice(n.value, True)
         if _is_literal(n.value):
+            return n
+        if _is_typing(n.value, "Annotated") and isinstance(n.slice, ast.Tuple) and n.slice.elts:
+            n.slice.elts[0] = _splice(n.slice.elts[0], True)
             return n
         n.slice = _splice(n.slice, True)
         return n
@@ -1181,7 +1198,9 @@ UNSTRING_WRAPS = ["{0}", "Optional[{0}]", "List[{0}] | None", "Dict[str, {0}]", 
                   "X[{0}] & y", "-{0}[k]",
                   # Literal through every spelling accepted today: its arguments are values, they stay quoted
                   "typing.Literal[{0}]", "typing_extensions.Literal[{0}]", "t.Literal[{0}]", "te.Literal[{0}, 'w']",
-                  "Optional[t.Literal[{0}, 'c']]", "Literal[{0}] | None", "x.y.Literal[{0}]"]
+                  "Optional[t.Literal[{0}, 'c']]", "Literal[{0}] | None", "x.y.Literal[{0}]",
+                  # Annotated[T, metadata...]: T is unquoted, the metadata are values
+                  "Annotated[{0}, 'meta data']", "t.Annotated[int, {0}]", "Annotated[{0}, {0}]", "Optional[Annotated[{0}, 'x y', 3]]"]
 UNSTRING_LITS = ['"a | b"', '"Foo"', '"a or b"', '"-a"', '"List[\'a | b\']"', '"a + b" * "c - d"', '"x[a, b]"',
                  '"a if b else c"', '"(a, b)"', '"\'nested | s\' & z"', '"a < b"', '"r"', '"a b"', '"r+"']
 
@@ -1268,7 +1287,9 @@ def unstring_stream(ctx: Ctx, only: Optional[List[str]] = None, stream: str = "u
 
 SEQ_STRINGS = ["Read | Write", "a + b", "x or y", "-n", "p if q else r", "m < n", "List[a | b]", "Foo"]
 SEQ_CONTEXTS = ["Flags & {0}", "{0} & Flags", "{0}", "-{0}", "not {0}", "{0} and z", "z or {0}", "Optional[{0}]",
-                "({0}, z)", "{0} ** 2", "2 ** {0}", "Literal[{0}]", "t.Literal[{0}, 'w']"]
+                "({0}, z)", "{0} ** 2", "2 ** {0}", "Literal[{0}]", "t.Literal[{0}, 'w']", "Lit[{0}, 'a b']",
+                "Ann[{0}, 'meta data']", "Ann[int, {0}]"]
+SEQ_HEADER = "import typing as t\nfrom typing import *\nfrom typing import Literal as Lit, Annotated as Ann\n"
 
 
 def _count_strs(tree: ast.AST) -> int:
@@ -1307,6 +1328,8 @@ def sequence_stream(ctx: Ctx, only: Optional[List[Any]] = None, stream: str = "s
     from pydoctor.stanutils import flatten_text
     from pydoctor.node2stan import gettext
     reqs, impls, pay = [], [], []
+    _ALIASES.clear()
+    _ALIASES.update({"Lit": "Literal", "Ann": "Annotated"})      # what SEQ_HEADER imports
     plans: List[Tuple[str, List[List[str]]]] = []
     # every string under an operator first and bare later, and the reverse; then random sequences
     for s in SEQ_STRINGS:
@@ -1324,15 +1347,16 @@ def sequence_stream(ctx: Ctx, only: Optional[List[Any]] = None, stream: str = "s
         plans.append((s, [[ctx.rng.choice(SEQ_CONTEXTS).format(q) for _a in range(ctx.rng.randint(1, 3))]
                           for _f in range(ctx.rng.randint(1, 3))]))
     if ctx.quick:
-        fixed = plans[:4 * 12 * 2]       # two strings exhaustively …
-        rest = plans[4 * 12 * 2:]
+        nfix = 4 * (len(SEQ_CONTEXTS) - 1) * 2
+        fixed = plans[:nfix]             # two strings exhaustively …
+        rest = plans[nfix:]
         ctx.rng.shuffle(rest)
         plans = fixed + rest[:120]      # … and a sample of the others
     if only is not None:
         plans = list(only)
     for s, funcs in plans:
         # module m1: the functions; module m2: an attribute and a function using the same text again
-        src1 = "import typing as t\nfrom typing import *\n"
+        src1 = SEQ_HEADER
         uses: List[Tuple[str, str, str, str]] = []      # (module, object, slot, annotation source)
         for fi, anns in enumerate(funcs):
             params = ", ".join("p%d: %s" % (i, a) for i, a in enumerate(anns))
@@ -1340,7 +1364,7 @@ def sequence_stream(ctx: Ctx, only: Optional[List[Any]] = None, stream: str = "s
             for i, a in enumerate(anns):
                 uses.append(("m1", "f%d" % fi, "p%d" % i, a))
             uses.append(("m1", "f%d" % fi, "return", anns[-1]))
-        src2 = "import typing as t\nfrom typing import *\nattr: %s = None\ndef g(p0: %s) -> None:\n    pass\n" % (
+        src2 = SEQ_HEADER + "attr: %s = None\ndef g(p0: %s) -> None:\n    pass\n" % (
             repr(s), funcs[0][0])
         uses.append(("m2", "attr", "attr", repr(s)))
         uses.append(("m2", "g", "p0", funcs[0][0]))
@@ -1412,6 +1436,7 @@ def sequence_stream(ctx: Ctx, only: Optional[List[Any]] = None, stream: str = "s
                 ctx.fail("annotation:display-depends-on-other-uses",
                          {"modules": {"m1": src1, "m2": src2}, "use": list(key)},
                          f"{key} is displayed as {d[key]!r} when rendered in documentation order and as {r[key]!r} in reverse order")
+    _ALIASES.clear()
     ctx.compare("pyval-" + stream, reqs, impls, pay)
 
 
